@@ -139,6 +139,19 @@ Closure(c, frontier, seen) ==
 DoneStates(c) == {Returned(c, s) : s \in {x \in Closure(c, {Init0(c)}, {Init0(c)}) : x.phase = "done"}}
 
 ----------------------------------------------------------------------------
+(* The length of the reported list in closed form.  The design run proves (LenSetSound / LenSetTight)    *)
+(* that it is exactly the set of lengths of the model's Return states for every configuration and cap  *)
+(* up to MaxCap; the trace specification uses it for every cap (the closure itself is exponential in   *)
+(* the number of line-search iterations, whose outcomes are not logged).                               *)
+NLine(c, n) == Cardinality({it \in 0..(n - 1) : LineIter(c, it)})
+\* entries after n completed sweeps: a PARAFAC2 line step replaces, every other reporting iteration appends
+Entries(c, n) == IF c.alg = "parafac2" THEN n - NLine(c, n) ELSE n
+LenSet(c) ==
+    IF ~Reports(c) \/ AllFixedShortCircuit(c) THEN {0}
+    ELSE {Entries(c, c.cap)}
+         \cup {Entries(c, j + 1) : j \in {i \in MinConv(c)..(c.cap - 1) : CanStop(c) /\ Entries(c, i + 1) >= 2}}
+
+----------------------------------------------------------------------------
 (* Design model: TLC explores every algorithm, option set, cap, stop point and line-search outcome. *)
 
 CONSTANTS MaxCap, Order
@@ -183,6 +196,10 @@ CanonAtReturn ==
 FixedUntouched == st.touched \cap FixedEff(cfg) = {}
 ZeroBudgetReturnsInit == st.phase = "done" /\ cfg.cap = 0 => st.tver = 0
 AllFixedReturnsInit == st.phase = "done" /\ AllFixedShortCircuit(cfg) => st.tver = 0 /\ st.touched = {}
+
+\* the closed form of the list length is sound (every Return state) and tight (every predicted length occurs)
+LenSetSound == st.phase = "done" => Len(st.errs) \in LenSet(cfg)
+LenSetTight == st.phase = "init" /\ cfg.cap <= 9 => {Len(s.errs) : s \in DoneStates(cfg)} = LenSet(cfg)
 
 \* number of entries as a function of what happened (relied upon by the trace specification)
 ErrsLenLaw ==
